@@ -41,10 +41,55 @@ HOOK = [None]                         # f(role, frozenset(held names), req name)
 QUEUE_OPS = dict(blocking_calls=0, would_block=[])
 
 
-def set_role(role, multi=False):
-    """role None: harness-internal thread, nothing is recorded for it."""
+class LifeLock:
+    """Pseudo-lock standing for 'the thread of this (single-instance) role is running': the thread holds it from
+    start to end, and Thread.join() on it is a request for it - so that waiting for a thread to END while holding
+    locks takes part in the lock-order analysis like any other wait."""
+    __slots__ = ("_name", "ordinal", "_owner", "_mod")
+
+    def __init__(self, role):
+        self._name, self.ordinal, self._owner, self._mod = "alive:" + role, 0, None, "thread"
+
+    @property
+    def name(self):
+        return self._name
+
+    @property
+    def uid(self):
+        return (self._name, 0)
+
+
+LIFE = {}                             # role -> LifeLock
+JOIN_TARGETS = {}                     # id(Thread object) -> role whose end a join() on it waits for
+
+
+def life_lock(role):
+    with _meta:
+        lk = LIFE.get(role)
+        if lk is None:
+            lk = LIFE[role] = LifeLock(role)
+            ALL_LOCKS.append(lk)
+    return lk
+
+
+def set_role(role, multi=False, life=False):
+    """role None: harness-internal thread, nothing is recorded for it.  life: this thread IS the (single) thread of
+    the role; it holds the role's LifeLock until end_role()."""
     _tls.role = (role, bool(multi))
     THREAD_ROLE[_thread.get_ident()] = role
+    if life and role is not None:
+        lk = life_lock(role)
+        lk._owner = _thread.get_ident()
+        _held().append(lk)
+
+
+def end_role():
+    held = _held()
+    for i in range(len(held) - 1, -1, -1):
+        if isinstance(held[i], LifeLock):
+            if held[i]._owner == _thread.get_ident():
+                held[i]._owner = None
+            del held[i]
 
 
 def get_role():
@@ -222,11 +267,43 @@ def _install_queue_watch():
     queue.Queue.get = get
 
 
+def _install_join_watch():
+    real_join = threading.Thread.join
+
+    def join(self, timeout=None):
+        role = JOIN_TARGETS.get(id(self))
+        if role is None or timeout is not None:
+            return real_join(self, timeout)
+        me = _thread.get_ident()
+        lk = life_lock(role)
+        r, multi = get_role()
+        if r is not None and lk._owner != me:
+            held = _held()
+            key = (r, multi, tuple(sorted(l.uid for l in held)), lk.uid)
+            with _meta:
+                rec = FACTS.get(key)
+                if rec is None:
+                    FACTS[key] = [1, _site()]
+                else:
+                    rec[0] += 1
+                ACQUISITIONS[r] = ACQUISITIONS.get(r, 0) + 1
+            hook = HOOK[0]
+            if hook is not None:
+                hook(r, frozenset(l.name for l in held), lk.name)
+        WAITING[me] = lk
+        try:
+            return real_join(self, timeout)
+        finally:
+            WAITING.pop(me, None)
+    threading.Thread.join = join
+
+
 def install():
     if any(m == PACKAGE or m.startswith(PACKAGE + ".") for m in sys.modules):
         raise RuntimeError("lockspy.install() must run before %s is imported" % PACKAGE)
     threading.RLock = _factory
     _install_queue_watch()
+    _install_join_watch()
 
 
 # ------------------------------------------------------------------------------------- reports
